@@ -195,6 +195,159 @@ fn long_histories(kinds: &[Kind]) -> (u64, u64, Option<(String, usize, String)>)
     (n, ops, bad)
 }
 
+// ------------------------------------------------------------------------------------------------ interrupted calls
+
+const POISON: u64 = 0xDEAD_0000_BEEF;
+
+/// Fnv, except that hashing the item POISON panics: the only way for a caller to interrupt a sketching call in the middle
+/// of its stream (a panicking Hash implementation of the item type)
+#[derive(Default)]
+pub struct PoisonHasher(fnv::FnvHasher);
+impl std::hash::Hasher for PoisonHasher {
+    fn write(&mut self, bytes: &[u8]) {
+        if bytes.len() == 8 && u64::from_ne_bytes(bytes.try_into().unwrap()) == POISON {
+            panic!("poisoned item");
+        }
+        self.0.write(bytes)
+    }
+    fn finish(&self) -> u64 {
+        self.0.finish()
+    }
+}
+
+/// A call interrupted by a panic of the item's Hash implementation (caught by the caller) is one more kind of history: after
+/// reinit / reset - or by itself for ProbOrdMinHash2, which clears at the start of every call - the sketcher behaves like a
+/// new one.  Every position of the poisoned item in a 4-item slice, for every sketcher type.
+fn interrupted_calls() -> (u64, Option<(String, String)>) {
+    use probminhash::densminhash::{OptDensMinHash, RevOptDensMinHash};
+    use probminhash::probminhasher::probminhash2::ProbMinHash2;
+    use probminhash::probminhasher::probordminhash2::ProbOrdMinHash2;
+    use probminhash::setsketcher::{SetSketchParams, SetSketcher};
+    use probminhash::superminhasher::SuperMinHash;
+    use probminhash::superminhasher2::SuperMinHash2;
+    use std::hash::BuildHasherDefault;
+    use std::panic::{catch_unwind, AssertUnwindSafe};
+    type P = PoisonHasher;
+    let bh = BuildHasherDefault::<P>::default;
+    let mut n = 0u64;
+    let post: Vec<u64> = vec![1, 2, 1, 9];
+    for pos in 0..4usize {
+        let mut pre: Vec<u64> = vec![1, 2, 3];
+        pre.insert(pos, POISON);
+        let quiet = |f: &mut dyn FnMut()| {
+            let _ = crate::common::guarded_mut(|| f());
+        };
+        macro_rules! case {
+            ($name:expr, $new:expr, $interrupted:expr, $reset:expr, $post:expr, $obs:expr) => {{
+                n += 1;
+                let r = catch_unwind(AssertUnwindSafe(|| {
+                    let mut used = $new;
+                    quiet(&mut || {
+                        let _ = $interrupted(&mut used, &pre);
+                    });
+                    $reset(&mut used);
+                    $post(&mut used, &post);
+                    let mut fresh = $new;
+                    $post(&mut fresh, &post);
+                    ($obs(&used), $obs(&fresh))
+                }));
+                match r {
+                    Ok((a, b)) if a == b => {}
+                    Ok((a, b)) => return (n, Some(($name.to_string(), format!("a call on {:?} interrupted at the poisoned item (panic caught), then reset, then {:?}: {:x?} ; fresh instance: {:x?}", pre, post, &a[..a.len().min(4)], &b[..b.len().min(4)])))),
+                    Err(_) => return (n, Some(($name.to_string(), format!("after a call on {:?} interrupted at the poisoned item, reset + {:?} panics", pre, post)))),
+                }
+            }};
+        }
+        case!(
+            "ProbOrdMinHash2",
+            ProbOrdMinHash2::<P>::new(16, 2),
+            |h: &mut ProbOrdMinHash2<P>, s: &Vec<u64>| h.hash_set(s),
+            |_h: &mut ProbOrdMinHash2<P>| {},
+            |h: &mut ProbOrdMinHash2<P>, s: &Vec<u64>| {
+                let _ = h.hash_set(s);
+            },
+            |h: &ProbOrdMinHash2<P>| {
+                // the signature of the last call is recomputed: hash_set is the observation
+                let mut c = ProbOrdMinHash2::<P>::new(16, 2);
+                let _ = &mut c;
+                h.verif_selected().1.iter().map(|v| v.to_bits()).collect::<Vec<u64>>()
+            }
+        );
+        case!(
+            "SuperMinHash",
+            SuperMinHash::<f64, u64, P>::new(16, bh()),
+            |h: &mut SuperMinHash<f64, u64, P>, s: &Vec<u64>| h.sketch_slice(s),
+            |h: &mut SuperMinHash<f64, u64, P>| h.reinit(),
+            |h: &mut SuperMinHash<f64, u64, P>, s: &Vec<u64>| {
+                let _ = h.sketch_slice(s);
+            },
+            |h: &SuperMinHash<f64, u64, P>| h.get_hsketch().iter().map(|v| v.to_bits()).collect::<Vec<u64>>()
+        );
+        case!(
+            "SuperMinHash2",
+            SuperMinHash2::<u64, u64, P>::new(16, bh()),
+            |h: &mut SuperMinHash2<u64, u64, P>, s: &Vec<u64>| h.sketch_slice(s),
+            |h: &mut SuperMinHash2<u64, u64, P>| h.reinit(),
+            |h: &mut SuperMinHash2<u64, u64, P>, s: &Vec<u64>| {
+                let _ = h.sketch_slice(s);
+            },
+            |h: &SuperMinHash2<u64, u64, P>| h.get_hsketch().clone()
+        );
+        case!(
+            "SetSketcher",
+            SetSketcher::<u16, u64, P>::new(SetSketchParams::new(1.001, 16, 20., 65534), bh()),
+            |h: &mut SetSketcher<u16, u64, P>, s: &Vec<u64>| h.sketch_slice(s),
+            |h: &mut SetSketcher<u16, u64, P>| h.reinit(),
+            |h: &mut SetSketcher<u16, u64, P>, s: &Vec<u64>| {
+                let _ = h.sketch_slice(s);
+            },
+            |h: &SetSketcher<u16, u64, P>| {
+                let mut v: Vec<u64> = h.get_signature().iter().map(|x| *x as u64).collect();
+                v.push(h.get_nb_overflow() as u64);
+                v.push(h.get_low_sketch() as u64);
+                v
+            }
+        );
+        case!(
+            "OptDensMinHash",
+            OptDensMinHash::<f64, u64, P>::new(16, bh()),
+            |h: &mut OptDensMinHash<f64, u64, P>, s: &Vec<u64>| h.sketch_slice(s),
+            |h: &mut OptDensMinHash<f64, u64, P>| h.reinit(),
+            |h: &mut OptDensMinHash<f64, u64, P>, s: &Vec<u64>| {
+                let _ = h.sketch_slice(s);
+            },
+            |h: &OptDensMinHash<f64, u64, P>| h.get_hsketch_u64()
+        );
+        case!(
+            "RevOptDensMinHash",
+            RevOptDensMinHash::<f64, u64, P>::new(16, bh()),
+            |h: &mut RevOptDensMinHash<f64, u64, P>, s: &Vec<u64>| h.sketch_slice(s),
+            |h: &mut RevOptDensMinHash<f64, u64, P>| h.reinit(),
+            |h: &mut RevOptDensMinHash<f64, u64, P>, s: &Vec<u64>| {
+                let _ = h.sketch_slice(s);
+            },
+            |h: &RevOptDensMinHash<f64, u64, P>| h.get_hsketch_u64()
+        );
+        case!(
+            "ProbMinHash2",
+            ProbMinHash2::<u64, P>::new(16, u64::MAX),
+            |h: &mut ProbMinHash2<u64, P>, s: &Vec<u64>| {
+                for x in s {
+                    h.hash_item(*x, 1.5);
+                }
+            },
+            |h: &mut ProbMinHash2<u64, P>| h.reset(),
+            |h: &mut ProbMinHash2<u64, P>, s: &Vec<u64>| {
+                for x in s.iter().take(2) {
+                    h.hash_item(*x, 2.0);
+                }
+            },
+            |h: &ProbMinHash2<u64, P>| h.get_signature().clone()
+        );
+    }
+    (n, None)
+}
+
 fn ops_json(ops: &[Op]) -> Value {
     json!(ops
         .iter()
@@ -327,6 +480,11 @@ pub fn run(ctx: &Ctx) -> i32 {
             }
         }
     }
+    let (int_n, int_bad) = interrupted_calls();
+    tot_execs += int_n;
+    if let Some((name, what)) = int_bad {
+        ctx.violation(&format!("reset-after-interrupted-call:{}", name), &format!("{}: {}", name, what), json!({"kind": "interrupted", "sketcher": name}));
+    }
     let (long_n, long_ops, long_bad) = long_histories(&kinds);
     tot_execs += long_n;
     if let Some((name, c, what)) = long_bad {
@@ -349,6 +507,7 @@ pub fn run(ctx: &Ctx) -> i32 {
         "rule": "for every sketcher with reinit/reset (SuperMinHash f32/f64, SuperMinHash2 u32/u64, SetSketcher u8/u16/u32 incl. overflowing and clipping parameter sets, both densified sketchers f32/f64, ProbMinHash2) and ProbOrdMinHash2's self-clearing hash_set, sizes {1,3,16} (+2,7,64) (and 2-4 fixed histories per sketcher type at size 65537 (65535, 65536)): ALL pre-histories up to depth 3 (4) over {3 items, burst of 12, slice, empty slice (error path), end_sketch, merge, reinit} x ALL post-inputs of depth 1..2 (3): observation (all views, cardinal stats, overflow count, registers) after the reset must be bit-identical to a fresh instance fed the post-input; distinct = distinct fresh results",
         "sketcher_kinds": kinds.len(),
         "long_histories": {"cases": long_n, "operations": long_ops, "what": "per sketcher kind (largest size of the tier): c reset cycles for every c in 254..=258 and 65534..=65538 (first cycle streams items 1,2; the others stream other items), then reset and the post-input {1,2}: equal to a fresh instance"},
+        "interrupted_calls": {"cases": int_n, "what": "for each of 7 sketcher types (item hasher = Fnv that panics on one poisoned item): a call on a 4-item stream with the poisoned item at each of the 4 positions is interrupted by the panic (caught), then reinit / reset (nothing for ProbOrdMinHash2, which clears itself), then a post-input: equal to a fresh instance"},
         "pre_depth": pre_depth,
         "post_depth": post_depth,
         "non_vacuity_pre_histories_with_state": flags_total,
@@ -369,6 +528,10 @@ pub fn replay(_ctx: &Ctx, case: &Value) -> Result<(bool, String), String> {
     let mut kinds = catalogue(&sizes(false), true);
     kinds.extend(catalogue(&[65_535, 65_536, 65_537], true));
     let kind = kinds.iter().find(|k| k.name == name).ok_or("unknown sketcher kind")?;
+    if case["kind"].as_str() == Some("interrupted") {
+        let (_, bad) = interrupted_calls();
+        return Ok((bad.is_some(), format!("{:?}", bad)));
+    }
     if case["kind"].as_str() == Some("long") {
         let (_, _, bad) = long_histories(std::slice::from_ref(kind));
         return Ok((bad.is_some(), format!("{:?}", bad)));
